@@ -6,6 +6,7 @@ import random
 import time
 
 MAX_VIOL_PER_KIND = 25
+_KNOWN = None
 STOP_AFTER = int(os.environ.get("VF_STOP_AFTER", "0") or 0)
 
 
@@ -53,6 +54,7 @@ class Ctx:
         self.samples = []
         self.violations = []
         self.viol_counts = {}
+        self.cap_counts = {}
         self.reached = set()
         self.notes = {}
         self.t0 = time.time()
@@ -87,22 +89,35 @@ class Ctx:
             self.samples.append(jsonable(obj))
 
     def violation(self, kind, **witness):
-        n = self.viol_counts.get(kind, 0)
-        self.viol_counts[kind] = n + 1
-        if STOP_AFTER and sum(self.viol_counts.values()) >= STOP_AFTER and n < MAX_VIOL_PER_KIND:
+        self.viol_counts[kind] = self.viol_counts.get(kind, 0) + 1
+        w = jsonable(witness)
+        w["kind"] = kind
+        w["prop"] = witness.get("prop", self.prop)
+        # Witnesses are capped per (kind, function) - and witnesses that a known-finding classifier recognises have a
+        # cap of their own, so that a known finding can never use up the room of a new violation of the same kind.
+        capkey = (kind, str(w.get("fn"))[:60])
+        try:
+            global _KNOWN
+            if _KNOWN is None:
+                from . import findings
+                _KNOWN = (findings, findings.load().get("known", []))
+            kf = _KNOWN[0].classify(w, _KNOWN[1])
+            if kf is not None:
+                capkey = ("known-finding", kf.get("id"))
+        except Exception:
             pass
-        elif STOP_AFTER and sum(self.viol_counts.values()) >= STOP_AFTER:
-            # mutation / seeded-change runs only (VF_STOP_AFTER): enough witnesses, end this worker
-            raise StopWorkload()
+        n = self.cap_counts.get(capkey, 0)
+        self.cap_counts[capkey] = n + 1
+        total = sum(self.viol_counts.values())
         if n < MAX_VIOL_PER_KIND:
-            w = jsonable(witness)
-            w["kind"] = kind
-            w["prop"] = witness.get("prop", self.prop)
             w["variant"] = self.variant
             w["shard"] = self.shard
             w["replay"] = dict(module=self.prop, shard=self.shard, nshards=self.nshards, seed=self.seed, tier=self.tier,
                                variant=self.variant)
             self.violations.append(w)
+        elif STOP_AFTER and total >= STOP_AFTER:
+            # mutation / seeded-change runs only (VF_STOP_AFTER): enough witnesses, end this worker
+            raise StopWorkload()
 
     def scale(self, quick, thorough):
         """number of random cases per shard; VF_SCALE multiplies (e.g. 0.1 for a smoke run)"""
